@@ -90,10 +90,11 @@ Gfp(P, en, box) ==
 RECURSIVE WidthSum(_, _)
 WidthSum(doms, k) == IF k > Len(doms) THEN 0 ELSE (doms[k][2] - doms[k][1] + 1) + WidthSum(doms, k + 1)
 PassBound(P) == 8 * NProp(P) * (2 + WidthSum(P.doms, 1))
-\* C04 for one shaving call: the loop's position (domain, bound) only moves forward unless a value was shaved, so there
-\* are at most (values + 2 * domains) probes; every probe is at most 5 events (main pass, choice, branch, pass, resume).
-\* Twice that, as slack: a bound on the events between the start of a shaving call and its end.
-ShaveBound(P) == 10 * (WidthSum(P.doms, 1) + 2 * NDom(P) + 2)
+\* C04 for one shaving call: between two successful shaves (each removes a value: at most "values" of them) the loop
+\* probes each bound of each domain at most once, whatever the order in which it visits them or where it resumes after
+\* a shave; every probe is at most 6 events (main pass, choice, branch, pass, resume, slack).  A bound on the events
+\* between the start of a shaving call and its end that any reasonable shaving loop satisfies.
+ShaveBound(P) == 6 * (WidthSum(P.doms, 1) + 1) * (2 * NDom(P) + 2)
 \* C04 for a whole call: a search tree whose branches are non-empty disjoint sub-boxes has at most 2N nodes (N = points
 \* of the root box); a node is a pass (plus one shaving call), a choice, a branch / a solution, a resume; an optimisation
 \* restarts at most once per value of the objective.  Saturates with BoxSize: no verdict on large problems.
